@@ -33,6 +33,7 @@ structure FillLog (b b' : BR) : Prop where
   log : b'.log = b.log ++ b'.err.toList
   others : otherIds b'.log ++ otherIds (scriptErrs b'.rd) = otherIds b.log ++ otherIds (scriptErrs b.rd)
   ok : b'.panicked = b.panicked
+  cap : b'.cap = b.cap
 
 theorem fillLoop_log (i : Nat) (b : BR) (he : b.err = none) : FillLog b (fillLoop i b) := by
   induction i generalizing b with
@@ -49,6 +50,7 @@ theorem fillLoop_log (i : Nat) (b : BR) (he : b.err = none) : FillLog b (fillLoo
         simp only [Option.toList] at hso
         rw [hso]
       · rfl
+      · rfl
     · next hres =>
       rw [hres] at hso
       simp only [Option.toList, otherIds, List.filterMap_nil, List.nil_append] at hso
@@ -57,18 +59,20 @@ theorem fillLoop_log (i : Nat) (b : BR) (he : b.err = none) : FillLog b (fillLoo
         · simp [he]
         · simp only [otherIds] ; rw [hso]
         · rfl
+        · rfl
       · have := ih { b with rd := (sread (b.cap - b.buf.length) b.rd).2, buf := b.buf ++ (sread (b.cap - b.buf.length) b.rd).1.1 } he
         constructor
         · exact this.log
         · rw [this.others]; simp only [otherIds]; rw [hso]
         · exact this.ok
+        · exact this.cap
 
 theorem fill_log (b : BR) (he : b.err = none) (hl : b.buf.length < b.cap) : FillLog b (fill b) := by
   unfold fill
   simp only [ge_iff_le]
   rw [if_neg (by simp; exact hl)]
   have := fillLoop_log maxConsecutiveEmptyReads { b with r := 0 } he
-  exact ⟨this.log, this.others, this.ok⟩
+  exact ⟨this.log, this.others, this.ok, this.cap⟩
 
 theorem fill_inv0 (s0 : Script) (d : List Err) (b : BR) (h : Inv0 s0 d b) (he : b.err = none) (hl : b.buf.length < b.cap) :
     Inv0 s0 d (fill b) := by
@@ -88,6 +92,23 @@ theorem rrLoop_inv0 (s0 : Script) (d : List Err) (b : BR) (h : Inv0 s0 d b) : In
   fun_induction rrLoop b with
   | case1 b hcond ih => exact ih (fill_inv0 s0 d b h hcond.2.2.1 hcond.2.2.2.1)
   | case2 b hcond => exact h
+
+theorem peekLoop_cap (n : Nat) (b : BR) : (peekLoop n b).cap = b.cap := by
+  fun_induction peekLoop n b with
+  | case1 b hcond ih => rw [ih, (fill_log b hcond.2.2.1 hcond.2.1).cap]
+  | case2 b hcond => rfl
+
+theorem rrLoop_cap (b : BR) : (rrLoop b).cap = b.cap := by
+  fun_induction rrLoop b with
+  | case1 b hcond ih => rw [ih, (fill_log b hcond.2.2.1 hcond.2.2.2.1).cap]
+  | case2 b hcond => rfl
+
+theorem peekLoop_exit (n : Nat) (b : BR) :
+    ¬ ((peekLoop n b).buf.length < n ∧ (peekLoop n b).buf.length < (peekLoop n b).cap ∧ (peekLoop n b).err = none ∧
+        (peekLoop n b).panicked = false) := by
+  fun_induction peekLoop n b with
+  | case1 b hcond ih => exact ih
+  | case2 b hcond => exact hcond
 
 /-- while an error is pending the loops do nothing (so no `Read` is issued) -/
 theorem peekLoop_pending (n : Nat) (b : BR) (he : b.err ≠ none) : peekLoop n b = b := by
@@ -159,27 +180,25 @@ theorem readRune_inv (s0 : Script) (d : List Err) (b : BR) (h : Inv0 s0 d b) :
     · exact hl.ok
 
 theorem peek_inv (s0 : Script) (d : List Err) (n : Nat) (b : BR) (h : Inv0 s0 d b) :
-    (Inv0 s0 d (peek n b).2 ∧ ((peek n b).1.2 = none ∨ (peek n b).1.2 = some .bufferFull)) ∨
-    (∃ e, Inv0 s0 (d ++ [e]) (peek n b).2 ∧ (peek n b).1.2 = some e ∧ (peek n b).2.err = none) := by
+    (Inv0 s0 d (peek n b).2 ∧ ((peek n b).1.2 = none ∨ ((peek n b).1.2 = some .bufferFull ∧ b.cap < n))) ∨
+    (∃ e, Inv0 s0 (d ++ [e]) (peek n b).2 ∧ (peek n b).1.2 = some e ∧ (peek n b).2.err = none ∧ n ≤ b.cap) := by
   have hl := peekLoop_inv0 s0 d n b h
+  have hcap := peekLoop_cap n b
+  have hexit := peekLoop_exit n b
   unfold peek
   simp only []
-  generalize peekLoop n b = b' at hl
+  generalize peekLoop n b = b' at hl hcap hexit
   by_cases hn : n > b'.cap
   · simp only [hn, if_true]
-    exact Or.inl ⟨hl, Or.inr (by first | rfl | trivial)⟩
+    exact Or.inl ⟨hl, Or.inr ⟨(by first | rfl | trivial), by omega⟩⟩
   · simp only [hn, if_false]
     by_cases hs : b'.buf.length < n
     · simp only [hs, if_true, readErr]
       rcases he : b'.err with _ | e
-      · left
-        refine ⟨?_, Or.inr (by first | rfl | trivial)⟩
-        constructor
-        · simpa [he] using hl.log
-        · exact hl.others
-        · exact hl.ok
+      · -- impossible: the loop only stops short of n ≤ cap bytes because of an error
+        exact absurd ⟨hs, by omega, he, hl.ok⟩ hexit
       · right
-        refine ⟨e, ?_, (by first | rfl | trivial), (by first | rfl | trivial)⟩
+        refine ⟨e, ?_, (by first | rfl | trivial), (by first | rfl | trivial), by omega⟩
         constructor
         · simpa [he] using hl.log
         · exact hl.others
@@ -187,24 +206,52 @@ theorem peek_inv (s0 : Script) (d : List Err) (n : Nat) (b : BR) (h : Inv0 s0 d 
     · simp only [hs, if_false]
       exact Or.inl ⟨hl, Or.inl (by first | rfl | trivial)⟩
 
-/-- one operation: either nothing is handed out (the result carries no error, or `Peek`'s own `ErrBufferFull`), or
-exactly the oldest pending error `e` is handed out as this operation's error and the slot is empty afterwards. -/
+/-- one operation: either nothing is handed out (the result carries no error, or it is a `Peek` larger than the
+buffer answering its own `ErrBufferFull`), or exactly the oldest pending error `e` is handed out as this operation's
+error, the slot is empty afterwards, and the operation is not a `Peek` larger than the buffer. -/
 theorem step_inv (s0 : Script) (d : List Err) (op : Op) (b : BR) (h : Inv0 s0 d b) :
-    (Inv0 s0 d (step op b).2 ∧ ((step op b).1.err = none ∨ ((step op b).1.err = some .bufferFull ∧ op ≠ .readRune))) ∨
-    (∃ e, Inv0 s0 (d ++ [e]) (step op b).2 ∧ (step op b).1.err = some e ∧ (step op b).2.err = none) := by
+    (Inv0 s0 d (step op b).2 ∧
+      ((step op b).1.err = none ∨ ((step op b).1.err = some .bufferFull ∧ ∃ n, op = .peek n ∧ b.cap < n))) ∨
+    (∃ e, Inv0 s0 (d ++ [e]) (step op b).2 ∧ (step op b).1.err = some e ∧ (step op b).2.err = none ∧
+      ∀ n, op = .peek n → n ≤ b.cap) := by
   cases op with
   | readRune =>
     rcases readRune_inv s0 d b h with ⟨h1, h2⟩ | ⟨e, h1, h2, h3⟩
     · exact Or.inl ⟨h1, Or.inl h2⟩
-    · exact Or.inr ⟨e, h1, h2, h3⟩
+    · exact Or.inr ⟨e, h1, h2, h3, by intro n hn; cases hn⟩
   | peek n =>
-    rcases peek_inv s0 d n b h with ⟨h1, h2⟩ | ⟨e, h1, h2, h3⟩
+    rcases peek_inv s0 d n b h with ⟨h1, h2⟩ | ⟨e, h1, h2, h3, h4⟩
     · left
       refine ⟨h1, ?_⟩
-      rcases h2 with h2 | h2
+      rcases h2 with h2 | ⟨h2, h3⟩
       · exact Or.inl h2
-      · exact Or.inr ⟨h2, by simp⟩
-    · exact Or.inr ⟨e, h1, h2, h3⟩
+      · exact Or.inr ⟨h2, n, rfl, h3⟩
+    · exact Or.inr ⟨e, h1, h2, h3, by intro m hm; cases hm; exact h4⟩
+
+theorem step_cap (op : Op) (b : BR) : (step op b).2.cap = b.cap := by
+  cases op with
+  | readRune =>
+    simp only [step, readRune]
+    split <;> simp [readErr, rrLoop_cap]
+  | peek n =>
+    simp only [step, peek]
+    split
+    · exact peekLoop_cap n b
+    · split <;> simp [readErr, peekLoop_cap]
+
+/-- **No error is lost by large peeks.** A `Peek(n)` with `n > Size()` (the `Peek(8192)` of `tryReadDollarTag`) answers
+`bufio.ErrBufferFull` whatever the reader did, and whatever error it found or received stays in the slot for the next
+operation. -/
+theorem large_peek_keeps_error (n : Nat) (b : BR) (hn : b.cap < n) :
+    (peek n b).1.2 = some .bufferFull ∧ (peek n b).2 = peekLoop n b ∧ (b.err ≠ none → (peek n b).2.err = b.err) := by
+  have hcap := peekLoop_cap n b
+  unfold peek
+  simp only []
+  have : n > (peekLoop n b).cap := by omega
+  simp only [this, if_true]
+  refine ⟨trivial, trivial, ?_⟩
+  intro he
+  rw [peekLoop_pending n b he]
 
 theorem step_pending_noread (op : Op) (b : BR) (he : b.err ≠ none) : (step op b).2.rd = b.rd := by
   cases op with
@@ -228,7 +275,7 @@ theorem run_inv (s0 : Script) (ops : List Op) (d : List Err) (b : BR) (h : Inv0 
   | nil => exact ⟨d, h, by simp [run, resErrs]⟩
   | cons op rest ih =>
     simp only [run]
-    rcases step_inv s0 d op b h with ⟨h1, h2⟩ | ⟨e, h1, h2, _⟩
+    rcases step_inv s0 d op b h with ⟨h1, h2⟩ | ⟨e, h1, h2, _, _⟩
     · obtain ⟨d', hd1, hd2⟩ := ih d _ h1
       refine ⟨d', hd1, ?_⟩
       rw [hd2]
@@ -260,18 +307,23 @@ theorem client_step_inv (s0 : Script) (op : Op) (c : Client) (h : ClientInv s0 c
   · have heof' : c.eof = false := by simpa using heof
     simp only [heof', Bool.false_eq_true, if_false]
     obtain ⟨d, hd, hrec⟩ := h.inv
-    rcases step_inv s0 d op c.b hd with ⟨h1, h2⟩ | ⟨e, h1, h2, h3⟩
-    · have hr : recordErr c.err (step op c.b).1.err = c.err := by
-        rcases h2 with h2 | ⟨h2, _⟩ <;> simp [h2, recordErr]
-      cases op with
+    rcases step_inv s0 d op c.b hd with ⟨h1, h2⟩ | ⟨e, h1, h2, h3, h4⟩
+    · cases op with
       | readRune =>
         have hnone : (step Op.readRune c.b).1.err = none := by
-          rcases h2 with h2 | ⟨_, h2⟩
+          rcases h2 with h2 | ⟨_, n, h2, _⟩
           · exact h2
-          · exact absurd rfl h2
+          · cases h2
         simp only [hnone, Option.isSome_none, recordErr, Bool.false_eq_true, if_false]
         exact ⟨⟨d, h1, hrec⟩, by simp⟩
       | peek n =>
+        have hr : (if n ≤ (step (Op.peek n) c.b).2.size then recordErr c.err (step (Op.peek n) c.b).1.err else c.err) = c.err := by
+          rcases h2 with h2 | ⟨h2, m, hm, hlt⟩
+          · simp [h2, recordErr]
+          · cases hm
+            have : ¬ n ≤ (step (Op.peek n) c.b).2.size := by
+              simp only [BR.size, step_cap]; omega
+            simp [this]
         simp only [hr]
         exact ⟨⟨d, h1, hrec⟩, by simp⟩
     · have hr : recordErr c.err (step op c.b).1.err = firstRep (d ++ [e]) := by
@@ -282,7 +334,9 @@ theorem client_step_inv (s0 : Script) (op : Op) (c : Client) (h : ClientInv s0 c
         simp only [h2, Option.isSome_some, if_true]
         exact ⟨⟨d ++ [e], h1, hr'⟩, fun _ => h3⟩
       | peek n =>
-        simp only [hr]
+        have : n ≤ (step (Op.peek n) c.b).2.size := by
+          simp only [BR.size, step_cap]; exact h4 n rfl
+        simp only [this, if_true, hr]
         exact ⟨⟨d ++ [e], h1, rfl⟩, by simp⟩
 
 theorem client_run_inv (s0 : Script) (ops : List Op) (c : Client) (h : ClientInv s0 c) : ClientInv s0 (Client.run ops c) := by
